@@ -4,7 +4,10 @@ Open Scope string_scope.
 Open Scope list_scope.
 
 Inductive cop := CPut (name : bytes) | CReload | CProbe (key : bytes)
-| CPuts (names : list bytes).   (* a batch of Puts observed as one step (big-dictionary stream) *)
+| CPuts (names : list bytes)    (* a batch of Puts observed as one step (big-dictionary stream) *)
+| CHold                         (* Bytes(): the image is KEPT by the caller (not reloaded now) *)
+| CLoadHeld (i : nat).          (* FromBytes(the i-th kept image): the dictionary is again what it was at that save;
+                                   keys issued after that save are forgotten by the caller *)
 
 (* what the harness dumps after each operation *)
 Record sobs := {
@@ -78,36 +81,51 @@ Fixpoint gets_ok (issued : list (bytes * bytes)) (gets : list gres) : bool :=
   | _, _ => false
   end.
 
-Fixpoint run (ops : list cop) (obs : list sobs) (t : trie) (issued : list (bytes * bytes)) : list verdict :=
+Fixpoint run (ops : list cop) (obs : list sobs) (t : trie) (issued : list (bytes * bytes))
+             (held : list (trie * list (bytes * bytes))) : list verdict :=
   match ops, obs with
   | [], [] => []
   | o :: ops', s :: obs' =>
-      let '(t', issued', vs) :=
+      let '(t', issued', held', vs) :=
         match o with
         | CPut name =>
             let '(k, t') := d_put name t in
-            (t', issued ++ [(so_key s, name)],
+            (t', issued ++ [(so_key s, name)], held,
              [corr (beqb k (so_key s)) "d_put: key differs from Dict.Put"])
         | CPuts names =>
             let '(ks, t') := fold_left (fun acc n => let '(k, t1) := d_put n (snd acc) in (fst acc ++ [k], t1)) names ([], t) in
-            (t', issued ++ combine (so_keys s) names,
+            (t', issued ++ combine (so_keys s) names, held,
              [corr (list_eqb beqb ks (so_keys s)) "d_put: a key of a batch differs from Dict.Put"])
+        | CHold => (t, issued, held ++ [(t, issued)], [spec (so_ok s) "Bytes() failed"])
+        | CLoadHeld i =>
+            match nth_error held i with
+            | Some (ti, issi) =>
+                match d_deserialize (d_serialize ti) with
+                | Some t' => (t', issi, held, [spec (so_ok s) "FromBytes of an image saved earlier failed"])
+                | None => (ti, issi, held, [spec (so_ok s) "FromBytes of an image saved earlier failed";
+                                            ModelDiffers "model: deserialize (serialize t) failed"])
+                end
+            | None => (t, issued, held, [ModelDiffers "no such held image"])
+            end
         | CReload =>
             match d_deserialize (d_serialize t) with
-            | Some t' => (t', issued, [spec (so_ok s) "FromBytes(Bytes()) failed"])
-            | None => (t, issued, [spec (so_ok s) "FromBytes(Bytes()) failed";
-                                   ModelDiffers "model: deserialize (serialize t) failed"])
+            | Some t' => (t', issued, held, [spec (so_ok s) "FromBytes(Bytes()) failed"])
+            | None => (t, issued, held, [spec (so_ok s) "FromBytes(Bytes()) failed";
+                                         ModelDiffers "model: deserialize (serialize t) failed"])
             end
         | CProbe key =>
-            (t, issued, [corr (gres_eqb (d_get_res key t) (so_probe s)) "d_get on a probe key differs from Dict.Get"])
+            (t, issued, held, [corr (gres_eqb (d_get_res key t) (so_probe s)) "d_get on a probe key differs from Dict.Get"])
         end in
       vs ++
       [spec (gets_ok issued' (so_gets s)) "a previously issued key no longer decodes to its name";
-       corr (tr_eqb t' (so_dump s)) "trie structure differs from VerifDump";
+       (match o with
+        | CLoadHeld _ => spec (tr_eqb t' (so_dump s)) "an image saved earlier does not reload to the dictionary as it was at that save"
+        | _ => corr (tr_eqb t' (so_dump s)) "trie structure differs from VerifDump"
+        end);
        corr (list_eqb gres_eqb (map (fun kn => d_get_res (fst kn) t') issued') (so_gets s)) "d_get differs from Dict.Get on an issued key"]
-      ++ run ops' obs' t' issued'
+      ++ run ops' obs' t' issued' held'
   | _, _ => [ModelDiffers "ops/observations length mismatch"]
   end.
 
 Definition check_case (c : case) : verdict :=
-  combine_verdicts (run (c_ops c) (c_obs c) d_new [] ++ check_stor (c_stor c)).
+  combine_verdicts (run (c_ops c) (c_obs c) d_new [] [] ++ check_stor (c_stor c)).
